@@ -47,6 +47,7 @@ func runC03(c *Ctx, r *Rec) {
 		return
 	}
 	ms := c.methodsOf(cat)
+	shapeLints(c, r, append(fileFuncs(c, "collection", cat, cls), moduleFuncsReturning(c, "CatalogLike")...))
 
 	type eff struct {
 		kind string // map-insert, map-delete, map-reset, list-append, list-remove, list-reset, list-other
